@@ -1,5 +1,23 @@
 (* ReplaceFacts.v — C17 search-and-replace at paragraph level, C16 re-extraction
-   after save (facts about model/Save.v on top of FrameFacts / SaveFacts). *)
+   after save (facts about model/Save.v on top of FrameFacts / SaveFacts).
+
+   0. open_emit / emit_AE: an explicit unfolding equation for FrameFacts.emit at
+      an inline element.
+   1. emit_replaced_text_node (w:t and m:t), emit_replaced_w_t.
+   2. emit_replace_nodewise: emit_kids of the replacement nodes = emit_repl of
+      the original subtree, under plain_inline, no_link (hyperlinks excluded)
+      and repl_ok (every hit is a childless w:t/m:t named "t" with w bound; no
+      hit inside an <x>Pr child).  emit_replace_text_leaves is the same under
+      the needle-independent text_leaves + MergeFacts.wf_pr + wuri_at_hits;
+      emit_repl_frame: emit_repl = emit where the needle does not occur.
+      The statement without the local-name condition is false of the model
+      (emit_replace_nodewise_counterexample); the condition holds for every
+      parsed tree (view_t_named).
+   3. replace_frame_paragraph; 3b. replace_simple_par, replaced_par_walk (the
+      paragraph the collector builds from a replaced simple paragraph).
+   4. replace_all_fold, replace_all_app, replace_all_skip(_head), replace_all_noop.
+   5. save_then_part_root, save_written_is_part_root, C16_reextract_partial.
+   6. Examples.  7. about the hypotheses.  8. replace_docx_written. *)
 From Coq Require Import List NArith ZArith Bool Arith Lia.
 From Coq Require String.
 From D2P Require Import Str Err Xml TableTypes Tables Fmt NumFmt Bullets Merge Collector Walk Iter
@@ -190,8 +208,10 @@ Definition hit (old : str) (e : einfo) : bool :=
 Definition repl_toks (old new tx : str) : list tok :=
   join_toks [TRaw 10] (map (map TTxt) (splitlines (replace old new tx))).
 
-Lemma br_of_tag e wuri : e_ptag (match br_of e wuri with AE b _ => b | AX _ => e end) = tag_BR.
-Proof. reflexivity. Qed.
+(* the element built by br_of is tagged exactly w:br *)
+Lemma br_of_tag e wuri :
+  match br_of e wuri with AE b ks => e_ptag b = tag_BR /\ ks = [] | AX _ => False end.
+Proof. split; reflexivity. Qed.
 
 Lemma emit_br_of v path e wuri : emit v path (br_of e wuri) = Ok [TRaw 10].
 Proof. unfold br_of. apply emit_br. reflexivity. Qed.
@@ -593,6 +613,25 @@ Proof.
   apply Forall2_app; [apply (named_replace old new u nm k ns Ht Hb K1 Hk)|apply IH; exact K2].
 Qed.
 
+Lemma clean_named_replace old new u nm :
+  str_eqb s_t nm = false -> str_eqb s_br nm = false ->
+  forall ks nss,
+  Forall2 (fun k ns => replace_node old new k = Ok ns) ks nss ->
+  forallb (repl_ok old) ks = true ->
+  forallb (fun k => negb (is_elem_named u nm k) || needle_free old k) ks = true ->
+  find_children u nm (concat nss) = find_children u nm ks.
+Proof.
+  intros Ht Hb ks nss HF. unfold find_children.
+  induction HF as [|k ns r nss Hk _ IH]; intros Hok Hpr; [reflexivity|].
+  cbn [forallb] in Hok, Hpr. apply andb_true_iff in Hok. destruct Hok as [K1 K2].
+  apply andb_true_iff in Hpr. destruct Hpr as [P1 P2].
+  change (k :: r) with ([k] ++ r). cbn [concat]. rewrite !filter_app, (IH K2 P2). f_equal.
+  destruct (is_elem_named u nm k) eqn:En.
+  - cbn [negb orb] in P1. rewrite (replace_node_frame _ _ _ P1) in Hk. injection Hk as <-. reflexivity.
+  - pose proof (named_replace old new u nm k ns Ht Hb K1 Hk) as G.
+    cbn [filter] in G |- *. rewrite En in G |- *. inversion G. reflexivity.
+Qed.
+
 Lemma pr_replace old new e : forall ks nss,
   Forall2 (fun k ns => replace_node old new k = Ok ns) ks nss ->
   forallb (repl_ok old) ks = true ->
@@ -600,17 +639,9 @@ Lemma pr_replace old new e : forall ks nss,
   find_children (e_uri e) (e_local e ++ s_Pr) (concat nss)
   = find_children (e_uri e) (e_local e ++ s_Pr) ks.
 Proof.
-  intros ks nss HF. unfold find_children.
-  induction HF as [|k ns r nss Hk _ IH]; intros Hok Hpr; [reflexivity|].
-  cbn [forallb] in Hok, Hpr. apply andb_true_iff in Hok. destruct Hok as [K1 K2].
-  apply andb_true_iff in Hpr. destruct Hpr as [P1 P2].
-  change (k :: r) with ([k] ++ r). cbn [concat]. rewrite !filter_app, (IH K2 P2). f_equal.
-  unfold is_Pr_child in P1.
-  destruct (is_elem_named (e_uri e) (e_local e ++ s_Pr) k) eqn:En.
-  - cbn [negb orb] in P1. rewrite (replace_node_frame _ _ _ P1) in Hk. injection Hk as <-. reflexivity.
-  - pose proof (named_replace old new (e_uri e) (e_local e ++ s_Pr) k ns
-                  (local_Pr_not_t _) (local_Pr_not_br _) K1 Hk) as G.
-    cbn [filter] in G |- *. rewrite En in G |- *. inversion G. reflexivity.
+  intros ks nss HF Hok Hpr.
+  exact (clean_named_replace old new (e_uri e) (e_local e ++ s_Pr)
+           (local_Pr_not_t _) (local_Pr_not_br _) ks nss HF Hok Hpr).
 Qed.
 
 Lemma gather_Pr_replaced old new e ks nss :
@@ -960,6 +991,93 @@ Theorem replace_frame_paragraph : forall old new t,
 Proof. intros old new t _ H. apply replace_node_frame. exact H. Qed.
 
 (* ================================================================== *)
+(* 3b. a whole ordinary paragraph whose children are hit                 *)
+(* ================================================================== *)
+(* the paragraph's own w:pPr is free of the needle (get_bullet_fmt looks for
+   it under the name {w}pPr, gather_Pr under {uri of the element}<local>Pr) *)
+Definition ppr_clean (old : str) (e : einfo) (ks : list anode) : bool :=
+  forallb (fun k => negb (is_elem_named (e_wuri e) s_pPr k) || needle_free old k) ks.
+
+Lemma bullet_fmt_replaced old new e ks nss :
+  Forall2 (fun k ns => replace_node old new k = Ok ns) ks nss ->
+  forallb (repl_ok old) ks = true -> ppr_clean old e ks = true ->
+  get_bullet_fmt (AE e (concat nss)) = get_bullet_fmt (AE e ks).
+Proof.
+  intros HF Hok Hp. unfold get_bullet_fmt, first_child_w, children_w.
+  destruct (e_wuri e) as [u|] eqn:Eu; [|reflexivity].
+  unfold ppr_clean in Hp. rewrite Eu in Hp.
+  rewrite (clean_named_replace old new (Some u) s_pPr eq_refl eq_refl ks nss HF Hok Hp).
+  reflexivity.
+Qed.
+
+Theorem replace_simple_par : forall v old new e ks,
+  simple_par (AE e ks) = true -> forallb no_link ks = true ->
+  hit old e = false -> repl_ok old (AE e ks) = true -> ppr_clean old e ks = true ->
+  exists ks', replace_node old new (AE e ks) = Ok [AE e ks']
+    /\ simple_par (AE e ks') = true
+    /\ (forall path i, emit_kids v path ks' i = emit_repl_kids v old new ks)
+    /\ get_pStyle e ks' = get_pStyle e ks
+    /\ get_bullet_fmt (AE e ks') = get_bullet_fmt (AE e ks).
+Proof.
+  intros v old new e ks Hsp Hnl Hh Hok Hp.
+  destruct (replace_node_total old new _ Hok) as [ns Hns].
+  rewrite replace_node_cases, Hh in Hns. bind_inv Hns as ks' Ek. injection Hns as <-.
+  destruct (rkids_inv _ _ _ _ Ek) as (nss & HF & ->).
+  destruct (repl_ok_miss _ _ _ Hh Hok) as [Hoks Hpr].
+  cbn [simple_par] in Hsp. apply andb_true_iff in Hsp. destruct Hsp as [Ht Hpks].
+  exists (concat nss). split; [rewrite replace_node_cases, Hh, Ek; reflexivity|].
+  assert (Hpl : forallb plain_inline (concat nss) = true).
+  { rewrite forallb_concat. clear - HF Hpks.
+    induction HF as [|k ns r nss Hk _ IH]; [reflexivity|].
+    cbn [forallb] in Hpks |- *. apply andb_true_iff in Hpks. destruct Hpks as [P1 P2].
+    rewrite (replace_node_plain old new k ns P1 Hk), (IH P2). reflexivity. }
+  split; [cbn [simple_par]; rewrite Ht, Hpl; reflexivity|].
+  split.
+  - clear - HF Hoks Hnl Hpks.
+    induction HF as [|k ns r nss Hk _ IH]; intros path i; [reflexivity|].
+    cbn [forallb] in Hoks, Hnl, Hpks.
+    apply andb_true_iff in Hoks. destruct Hoks as [O1 O2].
+    apply andb_true_iff in Hnl. destruct Hnl as [N1 N2].
+    apply andb_true_iff in Hpks. destruct Hpks as [P1 P2].
+    cbn [concat emit_repl_kids]. rewrite emit_kids_app.
+    rewrite (emit_replace_nodewise v old new k P1 N1 O1 ns path i Hk), (IH P2 N2 O2). reflexivity.
+  - split.
+    + unfold get_pStyle. rewrite (gather_Pr_replaced old new e ks nss HF Hoks Hpr). reflexivity.
+    + apply (bullet_fmt_replaced old new e ks nss HF Hoks Hp).
+Qed.
+
+(* C17 at paragraph level: walking the replaced paragraph appends one
+   paragraph whose runs carry the queued label, the ORIGINAL paragraph's list
+   marker and then emit_repl of the original children; style, lineage and
+   list position are those of the original paragraph *)
+Theorem replaced_par_walk : forall v old new e ks ks' path s s' ps,
+  simple_par (AE e ks) = true -> forallb no_link ks = true ->
+  hit old e = false -> repl_ok old (AE e ks) = true -> ppr_clean old e ks = true ->
+  replace_node old new (AE e ks) = Ok [AE e ks'] ->
+  Inv s -> walk v path (AE e ks') s = Ok s' -> pars_at 4%nat (c_tree s) = Ok ps ->
+  exists p bl number cs ts,
+    pars_at 4%nat (c_tree s') = Ok (ps ++ [p])
+    /\ get_pStyle e ks = Ok (p_style p)
+    /\ get_par_number (to_numtable v) (c_counters s) (get_bullet_fmt (AE e ks)) = (cs, number)
+    /\ get_bullet (to_numtable v) (get_bullet_fmt (AE e ks)) number = Ok bl
+    /\ c_counters s' = cs /\ p_listpos p = get_list_position cs (get_bullet_fmt (AE e ks))
+    /\ emit_repl_kids v old new ks = Ok ts
+    /\ toks_of (p_runs p) = toks_of (c_queued s) ++ raw bl ++ ts.
+Proof.
+  intros v old new e ks ks' path s s' ps Hsp Hnl Hh Hok Hp Hr HI Hw Hps.
+  destruct (replace_simple_par v old new e ks Hsp Hnl Hh Hok Hp)
+    as (ks2 & Hr2 & Hsp2 & Hem & Hst & Hbf).
+  rewrite Hr in Hr2. injection Hr2 as <-.
+  destruct (simple_par_walk v e ks' path s s' ps Hsp2 HI Hw Hps)
+    as (p & Hp4 & _ & _ & _ & _ & _ & _ & Hps' & _ & (bl & number & cs & Hn & Hb & Hc & Hl & ems & Hems & Htoks)).
+  rewrite Hbf in Hn, Hb, Hl. rewrite Hst in Hps'.
+  exists p, bl, number, cs, (concat ems).
+  repeat (split; [assumption|]). split; [|exact Htoks].
+  rewrite <- (Hem path O), emit_kids_list.
+  change (emit_list v path ks' 0 = Ok ems) in Hems. rewrite Hems. reflexivity.
+Qed.
+
+(* ================================================================== *)
 (* 4. the pairs are applied left to right                               *)
 (* ================================================================== *)
 Lemma replace_all_nil : forall root, replace_all [] root = Ok root.
@@ -1131,6 +1249,7 @@ Section Examples.
   (* "hello there\nyou\tthere\nyou" *)
   Definition ex_text : str :=
     s2l "hello there" ++ [10] ++ s2l "you" ++ [9] ++ s2l "there" ++ [10] ++ s2l "you".
+  Definition ex_flat : str := s2l "hello thereyouthereyou".
 End Examples.
 
 (* the example satisfies every hypothesis of emit_replace_nodewise and of
@@ -1161,10 +1280,166 @@ Example ex_replace_all :
     /\ (exists ts, emit_kids ex_env [] (kids_of p') 0 = Ok ts
                    /\ emit_repl_kids ex_env ex_old ex_new (kids_of ex_par) = Ok ts
                    /\ render false ts = ex_text)
-    /\ itertext p' = s2l "hello thereyouthereyou".
+    /\ itertext p' = ex_flat.
 Proof.
   eexists. split; [vm_compute; reflexivity|]. split; [vm_compute; reflexivity|].
   split; [vm_compute; reflexivity|]. split.
   - eexists. split; [vm_compute; reflexivity|]. split; vm_compute; reflexivity.
   - vm_compute. reflexivity.
 Qed.
+
+(* ================================================================== *)
+(* 7. about the extra hypotheses                                        *)
+(* ================================================================== *)
+(* (a) the local-name condition inside text_leaves / repl_ok holds for every
+   tree that comes from the parser: a prefixed tag "w:t" or "m:t" determines
+   the local name "t" *)
+Fixpoint t_named (t : anode) : bool :=
+  match t with
+  | AX _ => true
+  | AE e ks => (negb (is_text_tag e) || str_eqb (e_local e) s_t) && forallb t_named ks
+  end.
+
+Lemma prefixed_t_local (a : N) : a <> 58 ->
+  forall pre l, pre ++ 58 :: l = [a; 58; 116] -> l = [116].
+Proof.
+  intros Ha pre l H.
+  destruct pre as [|x pre]; cbn in H.
+  - injection H as H _. congruence.
+  - destruct pre as [|y pre]; cbn in H.
+    + injection H as _ H. exact H.
+    + destruct pre as [|z pre]; cbn in H; [discriminate H|].
+      destruct pre as [|w pre]; cbn in H; [discriminate H|].
+      injection H as _ _ _ H. destruct pre; discriminate H.
+Qed.
+
+Lemma view_root_t_named p u l m a tx tl ks e ks' :
+  view (RE p u l m a tx tl ks) = AE e ks' -> is_text_tag e = true -> e_local e = s_t.
+Proof.
+  cbn [view]. intros H Ht. injection H as <- _. unfold is_text_tag in Ht. cbn [e_ptag e_local] in *.
+  unfold prefixed in Ht. apply orb_true_iff in Ht.
+  destruct Ht as [Ht|Ht]; apply str_eqb_eq in Ht;
+    refine (prefixed_t_local _ _ _ _ Ht); discriminate.
+Qed.
+
+Lemma view_t_named : forall r, t_named (view r) = true.
+Proof.
+  fix IH 1. intros [p u l m a tx tl ks|tl]; [|reflexivity].
+  cbn [view t_named]. apply andb_true_iff. split.
+  - match goal with |- negb (is_text_tag ?e) || _ = true => destruct (is_text_tag e) eqn:Ht end;
+      [|reflexivity].
+    pose proof (view_root_t_named p u l m a tx tl ks _ _ eq_refl Ht) as Hl.
+    cbn [negb orb e_local] in Hl |- *. rewrite Hl. reflexivity.
+  - induction ks as [|k ks IHks]; [reflexivity|]. cbn [map forallb]. rewrite IH, IHks. reflexivity.
+Qed.
+
+(* (b) without it the statement is false of the model (for an einfo no parser
+   produces): a "w:t" element whose local name is "checked", inside a
+   w:checkBox, replaced by the empty string disappears and changes the box *)
+Fixpoint text_leaves0 (t : anode) : bool :=
+  match t with
+  | AX _ => true
+  | AE e ks =>
+      match e_text e with
+      | Some (_ :: _) => is_text_tag e && is_nil ks
+      | _ => true
+      end && forallb text_leaves0 ks
+  end.
+
+Definition cx_U : str := [85].
+Definition cx_checked : anode :=
+  AE {| e_ptag := tag_TEXT; e_uri := Some cx_U; e_local := s_checked; e_wuri := Some cx_U;
+        e_ruri := None; e_attrs := [((Some cx_U, s_val), [49])]; e_text := Some [88];
+        e_tail := None |} [].
+Definition cx_box : anode :=
+  AE {| e_ptag := tag_FORM_CHECKBOX; e_uri := Some cx_U; e_local := [99;104;101;99;107;66;111;120];
+        e_wuri := Some cx_U; e_ruri := None; e_attrs := []; e_text := None; e_tail := None |}
+     [cx_checked].
+Definition cx_env0 : env := {| env_x2h := []; env_rels := []; env_dup := false; env_numtbl := [] |}.
+
+Lemma emit_replace_nodewise_counterexample :
+  exists v old new t ns,
+    plain_inline t = true /\ no_link t = true /\ text_leaves0 t = true /\ wf_pr t = true
+    /\ wuri_at_hits old t = true /\ replace_node old new t = Ok ns
+    /\ emit_kids v [] ns 0 <> emit_repl v old new t.
+Proof.
+  exists cx_env0, [88], [], cx_box. eexists.
+  repeat (split; [vm_compute; reflexivity|]).
+  vm_compute. discriminate.
+Qed.
+
+(* (c) the hypothesis about property children (wf_pr / the second half of
+   repl_ok) is what keeps the FORMATTING of a run unchanged: with a hit inside
+   w:rPr the w:br that is inserted there becomes a formatting key *)
+Section CxPr.
+  Import String.StringSyntax.
+  Local Open Scope string_scope.
+  Definition cx_pr_run : anode :=
+    view (ex_el "r" None [ex_el "rPr" None [ex_el "t" (Some "X") []]; ex_el "t" (Some "y") []]).
+  Definition cx_pr_x2h : xml2html :=
+    [(s2l "br", {| hf_expr := [FTagLast]; hf_container := None; hf_property := None |})].
+End CxPr.
+
+Lemma run_formatting_changes_without_pr_hypothesis :
+  exists old new e ks ks',
+    cx_pr_run = AE e ks /\ text_leaves cx_pr_run = true /\ wuri_at_hits old cx_pr_run = true
+    /\ wf_pr cx_pr_run = false /\ repl_ok old cx_pr_run = false
+    /\ replace_node old new cx_pr_run = Ok [AE e ks']
+    /\ get_run_formatting e ks cx_pr_x2h = Ok []
+    /\ get_run_formatting e ks' cx_pr_x2h = Ok [[114]].
+Proof.
+  exists [88], [97; 10; 98]. do 3 eexists.
+  split; [reflexivity|]. repeat (split; [vm_compute; reflexivity|]). vm_compute. reflexivity.
+Qed.
+
+(* ================================================================== *)
+(* 8. replace_docx writes replace_all of every content part             *)
+(* ================================================================== *)
+Theorem replace_docx_written : forall a o pairs out,
+  replace_docx a o pairs = Ok out ->
+  exists fs, files a = Ok fs /\
+    forall f, In f fs -> mem_str (f_type f) save_overwrite_types = true ->
+      exists t t', part_root a fs o f = Ok t
+        /\ (if mem_str (f_type f) content_file_types then replace_all pairs t else Ok t) = Ok t'
+        /\ In (f_path f, WXml t') out.
+Proof.
+  intros a o pairs out H. unfold replace_docx in H. bind_inv H as fs Efs.
+  exists fs. split; [reflexivity|]. intros f Hf Hty.
+  destruct (save_written_exact _ _ _ _ H) as (copied & written & -> & _ & Hw).
+  assert (Hin : In f (filter (fun f => mem_str (f_type f) save_overwrite_types) fs)).
+  { apply filter_In. split; assumption. }
+  destruct (mapM_In_fwd _ _ _ Hw f Hin) as (y & Hy & Hyin).
+  bind_inv Hy as t' Et'. injection Hy as <-. bind_inv Et' as t Et.
+  exists t, t'. split; [reflexivity|]. split; [exact Et'|].
+  apply in_or_app. right. exact Hyin.
+Qed.
+
+(* ==== ASSUMPTIONS ==== *)
+Print Assumptions emit_AE.
+Print Assumptions emit_replaced_text_node.
+Print Assumptions emit_replaced_w_t.
+Print Assumptions replace_node_total.
+Print Assumptions replace_node_plain.
+Print Assumptions itertext_replace.
+Print Assumptions gather_Pr_replaced.
+Print Assumptions emit_replace_nodewise.
+Print Assumptions emit_repl_frame.
+Print Assumptions emit_replace_text_leaves.
+Print Assumptions replace_frame_paragraph.
+Print Assumptions replace_simple_par.
+Print Assumptions replaced_par_walk.
+Print Assumptions replace_all_fold.
+Print Assumptions replace_all_app.
+Print Assumptions replace_all_skip_head.
+Print Assumptions replace_all_skip.
+Print Assumptions replace_all_noop.
+Print Assumptions save_then_part_root.
+Print Assumptions save_written_is_part_root.
+Print Assumptions C16_reextract_partial.
+Print Assumptions ex_hypotheses.
+Print Assumptions ex_nodewise.
+Print Assumptions ex_replace_all.
+Print Assumptions view_t_named.
+Print Assumptions emit_replace_nodewise_counterexample.
+Print Assumptions run_formatting_changes_without_pr_hypothesis.
+Print Assumptions replace_docx_written.
